@@ -223,6 +223,20 @@ class Planted(object):
             self.b = self.Y.element(Am @ xstar - rr)
             self.f = lam * S.L1Norm(self.X)
             self.lam = lam
+        elif kind == 'elastic-net':
+            # f = lam ||x||_1 + q ||x||^2 (2q-strongly convex in the X geometry): admits pdhg's primal acceleration
+            lam = float(rng.uniform(0.1, 1.0))
+            q = float(rng.uniform(0.2, 1.0))
+            xstar = rng.normal(size=n)
+            xstar[rng.random(n) < 0.4] = 0
+            s = np.sign(xstar)
+            z = (xstar == 0)
+            s[z] = rng.uniform(-0.9, 0.9, size=int(z.sum()))
+            # optimality in the X inner product: A*(2(Ax - b)) + lam s + 2 q x = 0 with A* = A^T / c
+            rr = -Am @ np.linalg.solve(Am.T @ Am, c * (lam * s + 2 * q * xstar) / 2)
+            self.b = self.Y.element(Am @ xstar - rr)
+            self.f = S.FunctionalQuadraticPerturb(lam * S.L1Norm(self.X), quadratic_coeff=q)
+            self.lam, self.q = lam, q
         else:  # box-constrained least squares
             lo, hi = -0.5, 0.7
             xstar = rng.uniform(lo, hi, size=n)
@@ -249,8 +263,10 @@ class Planted(object):
         xa = np.asarray(x)
         q = -(self.Am.T @ (2 * (self.Am @ xa - np.asarray(self.b)))) / self.c
         tol0 = 1e-7 * max(1.0, np.abs(xa).max())
-        if self.kind == 'lasso':
+        if self.kind in ('lasso', 'elastic-net'):
             lam = self.lam
+            if self.kind == 'elastic-net':
+                q = q - 2 * self.q * xa
             d = np.where(np.abs(xa) > tol0, np.abs(q - lam * np.sign(xa)), np.maximum(np.abs(q) - lam, 0))
         else:
             d = np.where(np.abs(xa - self.lo) <= tol0, np.maximum(q, 0),
@@ -268,6 +284,13 @@ def solvers_for(Pb, nops):
     out.append(('pdhg;steps=default', lambda x, k, y0=None: S.pdhg(x, f, g, A, k, **({'y': y0} if y0 is not None else {}))))
     out.append(('pdhg;steps=tau-given', lambda x, k, y0=None: S.pdhg(x, f, g, A, k, tau=0.5 / L, **({'y': y0} if y0 is not None else {}))))
     out.append(('pdhg;steps=sigma-given', lambda x, k, y0=None: S.pdhg(x, f, g, A, k, sigma=0.5 / L, **({'y': y0} if y0 is not None else {}))))
+    # documented options that change the iteration but not its limit
+    out.append(('pdhg;gamma_dual', lambda x, k, y0=None: S.pdhg(x, f, g, A, k, tau=0.9 / L, sigma=0.9 / L, gamma_dual=0.25, **({'y': y0} if y0 is not None else {}))))
+    out.append(('pdhg;gamma_dual=0', lambda x, k, y0=None: S.pdhg(x, f, g, A, k, tau=0.9 / L, sigma=0.9 / L, gamma_dual=0.0, **({'y': y0} if y0 is not None else {}))))
+    out.append(('pdhg;gamma_primal=0', lambda x, k, y0=None: S.pdhg(x, f, g, A, k, tau=0.9 / L, sigma=0.9 / L, gamma_primal=0.0, **({'y': y0} if y0 is not None else {}))))
+    out.append(('pdhg;x_relax-given', lambda x, k, y0=None: S.pdhg(x, f, g, A, k, tau=0.9 / L, sigma=0.9 / L, x_relax=x.copy(), **({'y': y0} if y0 is not None else {}))))
+    if Pb.kind == 'elastic-net':
+        out.append(('pdhg;gamma_primal', lambda x, k, y0=None: S.pdhg(x, f, g, A, k, tau=0.9 / L, sigma=0.9 / L, gamma_primal=1.8 * Pb.q, **({'y': y0} if y0 is not None else {}))))
     out.append(('admm_linearized', lambda x, k, y0=None: S.admm_linearized(x, f, g, A, tau=0.9 / L ** 2, sigma=1.0, niter=k)))
     out.append(('proximal_gradient', lambda x, k, y0=None: S.proximal_gradient(x, f, g * A, gamma=0.45 / L ** 2, niter=k)))
     out.append(('accelerated_proximal_gradient', lambda x, k, y0=None: S.accelerated_proximal_gradient(x, f, g * A, gamma=0.45 / L ** 2, niter=k)))
@@ -284,15 +307,29 @@ def solvers_for(Pb, nops):
     out.append(('douglas_rachford_pd;ops=%d;steps=default' % len(rows), lambda x, k, y0=None: S.douglas_rachford_pd(x, f, gl, Ls, k)))
     out.append(('douglas_rachford_pd;ops=%d;steps=tau-given' % len(rows), lambda x, k, y0=None: S.douglas_rachford_pd(x, f, gl, Ls, k, tau=tau)))
     out.append(('douglas_rachford_pd;ops=%d;steps=sigma-given' % len(rows), lambda x, k, y0=None: S.douglas_rachford_pd(x, f, gl, Ls, k, sigma=sig)))
+    for lname, lam_ in (('lam=0.5', 0.5), ('lam=1.5', 1.5), ('lam=callable', lambda k_: 1.0 + 0.5 / (k_ + 1.0))):
+        out.append(('douglas_rachford_pd;ops=%d;%s' % (len(rows), lname),
+                    lambda x, k, y0=None, lam_=lam_: S.douglas_rachford_pd(x, f, gl, Ls, k, tau=tau, sigma=sig, lam=lam_)))
+    lz = [S.IndicatorZero(op_.range) for op_ in Ls]      # g box l = g for l = indicator of {0}
+    out.append(('douglas_rachford_pd;ops=%d;l=IndicatorZero' % len(rows), lambda x, k, y0=None: S.douglas_rachford_pd(x, f, gl, Ls, k, tau=tau, sigma=sig, l=lz)))
     sfb = [0.9 / (tau_ * len(rows) * n_ ** 2) for tau_, n_ in zip([0.5 / L] * len(rows), nr)]
     out.append(('forward_backward_pd;ops=%d' % len(rows), lambda x, k, y0=None: S.forward_backward_pd(x, f, gl, Ls, S.ZeroFunctional(X), tau=0.5 / L, sigma=sfb, niter=k)))
+    out.append(('forward_backward_pd;ops=%d;l=IndicatorZero' % len(rows),
+                lambda x, k, y0=None: S.forward_backward_pd(x, f, gl, Ls, S.ZeroFunctional(X), tau=0.5 / L, sigma=sfb, niter=k, l=lz)))
+    if len(rows) >= 2:
+        # first data block as the smooth term h (gradient 2 ||L_0||^2-Lipschitz), step rule of the documentation:
+        # 2 min(1/tau, 1/sigma_i) eta sqrt(1 - tau sum sigma_i ||L_i||^2) > 1
+        h = gl[0] * Ls[0]
+        st = 0.25 / max(1.0, L ** 2)
+        out.append(('forward_backward_pd;ops=%d;h=block0' % len(rows),
+                    lambda x, k, y0=None: S.forward_backward_pd(x, f, gl[1:], Ls[1:], h, tau=st, sigma=[st] * (len(rows) - 1), niter=k)))
     return out
 
 
 def run_planted(ctx, idx0):
     idx = idx0
     N = 500
-    for kind in ('lasso', 'box-ls'):
+    for kind in ('lasso', 'box-ls', 'elastic-net'):
         for weighted in (False, True):
             for nops in (1, 2, 3):
                 for rep in range(ctx.reps(2, 12)):
@@ -305,10 +342,15 @@ def run_planted(ctx, idx0):
                     ctx.case('planted;%s;ops=%d' % (cfgp, nops), rep)
                     if idx % 7 == 0:
                         ctx.sample({'planted': kind, 'space': util.srepr(Pb.X, 40), 'kappa': Pb.cond, 'x_star': Pb.xstar})
-                    for name, run in solvers_for(Pb, nops):
+                    for vi, (name, run) in enumerate(solvers_for(Pb, nops)):
                         if nops > 1 and not name.startswith(('douglas', 'forward')):
                             continue
+                        if not ctx.thorough and (vi + idx) % 3:
+                            continue   # quick tier: every variant on every third problem instance
                         comp, _, var = name.partition(';')
+                        # accelerated PDHG converges like O(1/N^2), not linearly: bounded progress is restated accordingly
+                        accel = ('gamma_primal' in name or 'gamma_dual' in name) and '=0' not in name
+                        tol_e, tol_k = (1e-3, 1e-2) if accel else (1e-6, 1e-5)
                         cfg = '%s;%s' % (cfgp, var) if var else cfgp
                         for start in ('zero', 'random'):
                             x = Pb.X.zero() if start == 'zero' else Pb.X.element(rng.normal(size=Pb.X.size))
@@ -321,11 +363,11 @@ def run_planted(ctx, idx0):
                                 ctx.violation(comp, cfg, 'raises:' + type(e).__name__, message=str(e)[:200])
                                 break
                             e = np.linalg.norm(np.asarray(x) - Pb.xstar) / max(e0, 1e-12)
-                            if not e <= 1e-6:
+                            if not e <= tol_e:
                                 ctx.violation(comp, cfg, 'progress', rel=float(e), N=N, kappa=Pb.cond)
                             ctx.ev('kkt')
                             kr = Pb.kkt_residual(x)
-                            if not kr <= 1e-5:
+                            if not kr <= tol_k:
                                 ctx.violation(comp, cfg, 'kkt', residual=kr)
                         # fixed point
                         ctx.ev('fixed-point')
